@@ -10,7 +10,8 @@
 //	X.getResumeValues() or <-X.resumeCh                                          recv X
 //	close(X.resumeCh)                                                            closeCh X
 //	X.status = .., X.caller = .., X.closeErr = ..                                set X
-//	t.call / t.cleanupCloseStack / t.RunContinuation (run Lua code)              run
+//	t.call / t.cleanupCloseStack / t.RunContinuation (run Lua code), and methods of
+//	thread.go that only wrap one of them (addRunWrappers)                       run
 //	go func(){..}()                                                              spawn (+ proc "<name>.go")
 //	t.end(..)                                                                    callEnd
 //	any other call that is not a builtin / errors.* / fmt.* / a thread-local getter /
@@ -366,6 +367,40 @@ func (w *walker) clauses(list []ast.Stmt) bool {
 
 func leanList(xs []string) string { return "[" + strings.Join(xs, ", ") + "]" }
 
+// addRunWrappers extends runMethods with the methods of *Thread in thread.go that only wrap a
+// run method: their body calls one (possibly under defer/recover) and takes no part in the
+// hand-off itself (no mutex, no resume channel).  Calling such a wrapper runs Lua code: `run`.
+func addRunWrappers(file *ast.File) {
+	for changed := true; changed; {
+		changed = false
+		for _, d := range file.Decls {
+			fd, ok := d.(*ast.FuncDecl)
+			if !ok || fd.Recv == nil || fd.Body == nil || wanted[fd.Name.Name] || runMethods[fd.Name.Name] {
+				continue
+			}
+			runs, protocol := false, false
+			ast.Inspect(fd.Body, func(n ast.Node) bool {
+				if sel, ok := n.(*ast.SelectorExpr); ok {
+					switch sel.Sel.Name {
+					case "mux", "resumeCh", "sendResumeValues", "getResumeValues":
+						protocol = true
+					}
+				}
+				if call, ok := n.(*ast.CallExpr); ok {
+					if sel, ok := call.Fun.(*ast.SelectorExpr); ok && runMethods[sel.Sel.Name] {
+						runs = true
+					}
+				}
+				return true
+			})
+			if runs && !protocol {
+				runMethods[fd.Name.Name] = true
+				changed = true
+			}
+		}
+	}
+}
+
 func main() {
 	repo := flag.String("repo", "/repo", "golua checkout")
 	out := flag.String("out", "", "output .lean file")
@@ -385,6 +420,7 @@ func main() {
 	var procs []proc
 	var problems []string
 	var srcs []string
+	addRunWrappers(file)
 	for _, d := range file.Decls {
 		fd, ok := d.(*ast.FuncDecl)
 		if !ok || fd.Recv == nil || !wanted[fd.Name.Name] || fd.Body == nil {
